@@ -181,6 +181,61 @@ pub fn copy_then_meld() {
     sym::reach(1);
 }
 
+/// As above for an *update* record: x changes its own element to a content that is already indexed from the pack of a
+/// held-back block, so x's second block carries an update record and no payload of its own.
+pub fn dedup_update() {
+    let copy = |dst: &Ad, src: &Ad, f: &str| {
+        let bytes = src.read().unwrap().read_object(f, 0, 0).unwrap();
+        dst.write().unwrap().write_object(f, &bytes).unwrap();
+    };
+    let w = Rep::new();
+    w.m.update(doc_with(&["a"], &["x".to_string()], "t")).unwrap();
+    w.m.commit(None).unwrap();
+    let files0 = w.ad.read().unwrap().list_objects("").unwrap();
+    w.m.update(doc_with(&["a", "c"], &["x".to_string(), "q".to_string()], "t")).unwrap();
+    w.m.commit(None).unwrap();
+    let files1: Vec<String> = w.ad.read().unwrap().list_objects("").unwrap().into_iter().filter(|f| !files0.contains(f)).collect();
+    let mut x = Rep::new();
+    for f in &files1 {
+        copy(&x.ad, &w.ad, f);
+    }
+    x.m.refresh().expect("refresh x");
+    let l0 = x.ad.read().unwrap().list_objects("").unwrap();
+    x.m.update(doc_with(&["k"], &["n".to_string()], "u")).unwrap();
+    x.m.commit(None).unwrap().expect("x commit 1");
+    let s1 = doc_text(&x.m);
+    let l1 = x.ad.read().unwrap().list_objects("").unwrap();
+    x.m.update(doc_with(&["k"], &["q".to_string()], "u")).unwrap();
+    x.m.commit(None).unwrap().expect("x commit 2");
+    let s2 = doc_text(&x.m);
+    let l2 = x.ad.read().unwrap().list_objects("").unwrap();
+    let first: Vec<String> = l1.iter().filter(|f| !l0.contains(f)).cloned().collect();
+    let second: Vec<String> = l2.iter().filter(|f| !l1.contains(f)).cloned().collect();
+    let mut z = Rep::new();
+    for f in &first {
+        copy(&z.ad, &x.ad, f);
+    }
+    z.m.refresh().expect("refresh z");
+    assert!(doc_text(&z.m) == s1, "x's first commit not applied");
+    for f in &second {
+        copy(&z.ad, &x.ad, f);
+        z.m.refresh().expect("refresh z");
+        assert!(doc_text(&z.m) == doc_text(&z.reopen()), "incremental refresh differs from reload");
+        for id in z.m.get_all_objects() {
+            assert!(z.m.get_value(&id, None).is_ok(), "a visible object has no readable value (block applied without its objects)");
+        }
+    }
+    let mid = doc_text(&z.m);
+    assert!(mid == s1 || mid == s2, "a state that no commit produced");
+    for f in files1.iter().filter(|f| f.ends_with(".pack")) {
+        copy(&z.ad, &w.ad, f);
+    }
+    z.m.refresh().expect("refresh z");
+    assert!(doc_text(&z.m) == s2, "the completed block is not applied");
+    assert!(doc_text(&z.reopen()) == s2, "reload differs after the missing pack arrived");
+    sym::reach(1);
+}
+
 /// Two replicas that never talked commit objects with partly identical content (symbolic value): a's block names pack Pa,
 /// whose only object is also stored in b's pack. A third replica holding b's commit receives a's block and pack in either
 /// order with a refresh after each: a's object is visible exactly when both files are there.
